@@ -122,7 +122,9 @@ static inline Song gen_song(Rng &r, const SongOpts &o)
                         offs.push_back(r.chance(0.5) ? mk_chan(tick, 0x80 | ch, ks[q], r.range(0, 127)) : mk_chan(tick, 0x90 | ch, ks[q], 0));
                         ons.push_back(mk_chan(tick, 0x90 | ch, ks[q], r.range(1, 127)));
                     }
+                    const bool on_first = !grouped && r.chance(0.4);     // each new note-on written in front of the note-off that ends the old note
                     if(grouped) { for(size_t q = 0; q < ks.size(); q++) { offs[q].serial = serial++; tr.ev.push_back(offs[q]); } for(size_t q = 0; q < ks.size(); q++) { ons[q].serial = serial++; tr.ev.push_back(ons[q]); } }
+                    else if(on_first) for(size_t q = 0; q < ks.size(); q++) { ons[q].serial = serial++; tr.ev.push_back(ons[q]); offs[q].serial = serial++; tr.ev.push_back(offs[q]); }
                     else for(size_t q = 0; q < ks.size(); q++) { offs[q].serial = serial++; tr.ev.push_back(offs[q]); ons[q].serial = serial++; tr.ev.push_back(ons[q]); }
                     continue;
                 }
